@@ -43,7 +43,13 @@ WEIGHTS = {
 TOKENS = ("t1", "t2")
 WEIGHTS["tokens"] = [("add", 12), ("new", 6), ("commit", 10), ("flush", 6), ("rollback", 4), ("expunge", 5), ("expire", 5),
                      ("get", 12), ("gett", 18), ("query", 6), ("queryt", 10), ("refresh", 3), ("delete", 3), ("close", 2),
-                     ("expunge_all", 1)]
+                     ("expunge_all", 1), ("touch", 9), ("pickle", 8)]
+
+
+# several flushes inside one SAVEPOINT touching the same instance (update, then delete, then a
+# failing flush or a savepoint rollback)
+WEIGHTS["savepoint"] = [("add", 14), ("setpk", 16), ("flush", 22), ("delete", 14), ("nbegin", 12), ("nrollback", 10),
+                        ("ncommit", 3), ("commit", 5), ("rollback", 3), ("new", 3), ("get", 2), ("expire", 2)]
 
 
 def pick(rng, profile, npool):
@@ -55,7 +61,7 @@ def pick(rng, profile, npool):
         return (k, rng.choice(PKS), rng.choice(TOKENS))
     if k == "queryt":
         return (k, rng.choice(TOKENS), int(rng.random() < 0.3))
-    if k in ("add", "delete", "expunge", "expire", "mtd", "merge", "refresh"):
+    if k in ("add", "delete", "expunge", "expire", "mtd", "merge", "refresh", "touch", "pickle"):
         return (k, rng.randrange(npool))
     if k in ("mt", "setpk"):
         return (k, rng.randrange(npool), rng.choice(PKS))
@@ -65,7 +71,7 @@ def pick(rng, profile, npool):
 
 
 def gen_random_case(rng, profile, nops, eoc):
-    env = L.Env(eoc=eoc)
+    env = L.Env(eoc=eoc, with_data=profile == "tokens")
     ops, recs = [], []
     try:
         for _ in range(rng.randint(1, 3)):
@@ -73,12 +79,62 @@ def gen_random_case(rng, profile, nops, eoc):
             ops.append(op)
             recs.append(env.apply(op))
         for _ in range(nops):
+            if profile == "tokens" and rng.random() < 0.12:
+                # an instance leaves the Session, possibly travels through pickle, comes back
+                # with add(), is changed and flushed
+                i = rng.randrange(len(env.pool))
+                macro = [("expunge", i)] + ([("pickle", i)] if rng.random() < 0.7 else []) + [("add", i)]
+                macro += ([("touch", i)] if rng.random() < 0.8 else []) + [("flush",)]
+                for op in macro:
+                    ops.append(op)
+                    recs.append(env.apply(op))
+                continue
             op = pick(rng, profile, len(env.pool))
             ops.append(op)
             recs.append(env.apply(op))
     finally:
         env.dispose()
     return eoc, ops, recs
+
+
+def gen_savepoint_ops(rng):
+    """a history with SAVEPOINTs in which several flushes touch the same instances: inside each
+    SAVEPOINT 2-5 groups of 1-2 changes (primary-key update, delete, add, expire) each followed
+    by a flush, ended by a SAVEPOINT rollback, a release, a transaction rollback or left to a
+    failing flush (a conflicting primary key)"""
+    pks = rng.sample(PKS, rng.randint(1, len(PKS)))
+    ops = [("new", k) for k in pks]
+    n = len(ops)
+    for i in range(n):
+        if rng.random() < 0.85:
+            ops.append(("add", i))
+    ops.append(rng.choice([("commit",), ("commit",), ("flush",)]))
+    for _ in range(rng.randint(1, 2)):
+        ops.append(("nbegin",))
+        for _g in range(rng.randint(2, 5)):
+            for _c in range(rng.randint(1, 2)):
+                w = rng.random()
+                i = rng.randrange(n)
+                if w < 0.40:
+                    ops.append(("setpk", i, rng.choice(PKS)))
+                elif w < 0.72:
+                    ops.append(("delete", i))
+                elif w < 0.90:
+                    ops.append(("add", i))
+                else:
+                    ops.append(("expire", i))
+            ops.append(("flush",))
+        w = rng.random()
+        if w < 0.5:
+            ops.append(("nrollback",))
+        elif w < 0.65:
+            ops.append(("ncommit",))
+        elif w < 0.8:
+            ops.append(("rollback",))
+        # else: the SAVEPOINT stays open
+    for _ in range(rng.randint(0, 3)):
+        ops.append(rng.choice([("commit",), ("rollback",), ("flush",), ("get", rng.choice(PKS)), ("nrollback",)]))
+    return ops
 
 
 def run_fixed(eoc, ops):
@@ -124,6 +180,11 @@ def _worker(job):
     elif kind == "fixed":
         for eoc, ops in job[1]:
             out.append(compact(run_fixed(eoc, ops)))
+    elif kind == "savepoint":
+        _, seedstr, n, eoc_p = job
+        rng = random.Random(seedstr)
+        for _ in range(n):
+            out.append(compact(run_fixed(rng.random() < eoc_p, gen_savepoint_ops(rng))))
     elif kind == "tokens":  # identity tokens: direct oracle only, nothing goes to the model
         from harness import lib_uow_oracle as O
 
